@@ -61,9 +61,9 @@ Lemma accept_same_loop s s' o : accept s = Ok (s', o) ->
     ((k_loop k = 0 /\ o = [OUp 0 c]) \/
      (k_loop k <> 0 /\ o = [] /\ forall v, getl s (k_loop k) = Some v -> exists v', getl s' (k_loop k) = Some v' /\ q_pend v' = q_pend v ++ [TEstablish c])).
 Proof.
-  unfold accept. destruct (negb (s_srv s)); [discriminate|].
+  unfold accept. destruct (negb (s_srv s) || s_dying s); [discriminate|].
   set (io := if s_nio s =? 0 then 0 else S (s_rr s)). set (rr := if s_nio s =? 0 then 0 else _).
-  set (s1 := mkSys _ _ _ _ _ _ _ _ _ _). cbv zeta.
+  set (s1 := mkSys _ _ _ _ _ _ _ _ _ _ _). cbv zeta.
   assert (Hg : getc s1 (length (s_conns s)) = Some (fresh io CbServer)) by (unfold getc, s1; cbn [s_conns]; apply nth_app_new).
   assert (Hlt : length (s_conns s) < length (s_conns s1)) by (unfold s1; cbn [s_conns]; rewrite app_length; cbn; lia).
   destruct (io =? 0) eqn:E.
